@@ -1,4 +1,6 @@
 import FuraxProofs.Props.C09
+import FuraxProofs.Props.C09Closed
+import FuraxProofs.Sem.LinearList
 #print axioms Furax.C09.methods_pinned
 #print axioms Furax.C09.direct_correct
 #print axioms Furax.C09.fft_correct
@@ -14,3 +16,10 @@ import FuraxProofs.Props.C09
 #print axioms Furax.C09.dense_entry_correct
 #print axioms Furax.C09.dense_correct
 #print axioms Furax.C09.dense_symmetric
+#print axioms Furax.C09.denotation_is_banded_product
+#print axioms Furax.C09.denotation_ignores_method
+#print axioms Furax.C09.all_methods_compute_denotation
+#print axioms Furax.C09.accepted_configuration_computes_denotation
+#print axioms Furax.C09.valid_leaf_facts
+#print axioms Furax.C09.denotation_self_adjoint
+#print axioms Furax.C09.transpose_denotes_self
